@@ -18,13 +18,14 @@ type AuthSpec struct {
 	Store          []M
 	Get            string
 	Trailing       []byte
+	Var            int
 }
 
 func (s *AuthSpec) d(n string) bool { return s.Dev[n] }
 
 func newAuthSpec(r *RNG, origin string, cred *KeyPair, credID, owner, pk []byte) *AuthSpec {
 	s := &AuthSpec{Origin: origin, Client: origin, Challenge: r.Bytes(16 + r.Intn(32)), Cred: cred, CredID: credID, Owner: owner, PK: pk,
-		UserHandle: owner, Flags: 0x01, Counter: uint32(r.U64() >> uint(r.Intn(33))), Dev: map[string]bool{},
+		UserHandle: owner, Flags: 0x01, Counter: uint32(r.U64() >> uint(r.Intn(33))), Dev: map[string]bool{}, Var: -1,
 		Store: []M{{"id": hx(credID), "owner": hx(owner), "pk": hx(pk)}}}
 	if r.Bool() {
 		s.Flags |= 0x04
@@ -55,19 +56,19 @@ func newAuthSpec(r *RNG, origin string, cred *KeyPair, credID, owner, pk []byte)
 func buildAssertion(r *RNG, s *AuthSpec) M {
 	cd := ClientDataSpec{Type: "webauthn.get", Challenge: b64u(s.Challenge), Origin: s.Client, Extra: s.CDExtra, Shuffle: r.Bool()}
 	if s.d("cd.type") {
-		cd.Type = pick(r, []string{"webauthn.create", "", "webauthn.get ", "Webauthn.get"})
+		cd.Type = variant(r, s.Var, []string{"webauthn.create", "", "webauthn.get ", "Webauthn.get", "webauthn.ge", "get"})
 	}
 	if s.d("cd.challenge") {
-		cd.Challenge = pick(r, []string{b64u(append(append([]byte{}, s.Challenge...), 0)), stdB64(s.Challenge) + "=", "", b64u(s.Challenge[1:]), b64u(s.Challenge) + "A"})
+		cd.Challenge = variant(r, s.Var, append([]string{b64u(append(append([]byte{}, s.Challenge...), 0)), stdB64(s.Challenge) + "=", "", b64u(s.Challenge[1:]), b64u(s.Challenge) + "A", hx(s.Challenge)}, nonCanonicalB64(b64u(s.Challenge))...))
 	}
 	if s.d("cd.origin") {
 		h := hostOf(s.Origin)
-		cd.Origin = pick(r, []string{"https://evil.example", "https://evil" + h, "https://" + h + ".evil.com", "https://evil.com/" + h, "https://" + h + "@evil.com", "", "https://evil.com?" + h, "https://evil.com#" + h})
+		cd.Origin = variant(r, s.Var, []string{"https://evil.example", "https://evil" + h, "https://" + h + ".evil.com", "https://evil.com/" + h, "https://" + h + "@evil.com", "", "https://evil.com?" + h, "https://evil.com#" + h, "null", "https://www.not" + h, "https://x" + h + ":443"})
 	}
 	cdj := cd.JSON(r)
 	ad := AuthDataSpec{RPIDHash: sha([]byte(hostOf(s.Origin))), Flags: s.Flags, Counter: s.Counter, Ext: s.Ext}
 	if s.d("ad.rpIdHash") {
-		ad.RPIDHash = pick(r, [][]byte{sha([]byte(s.Origin)), sha([]byte("evil.example")), r.Bytes(32)})
+		ad.RPIDHash = variant(r, s.Var, [][]byte{sha([]byte(s.Origin)), sha([]byte("evil.example")), r.Bytes(32), sha([]byte(hostOf(s.Origin) + ".")), make([]byte, 32)})
 	}
 	if s.d("ad.noUP") {
 		ad.Flags &^= 0x01
